@@ -428,7 +428,24 @@ Proof.
   unfold aware_dur_raw, aware_dist_raw. rewrite Hb, Hl, Nat.eqb_refl, Hk. cbn [cell]. rewrite Hv, Hw. cbn. split; reflexivity.
 Qed.
 
-Theorem aware_between M prov fb l r scale from to t lv rv lw :
+(* the marker guard of repair d8f731f *)
+Lemma is_neg_false q : (0 <= q)%Q -> is_neg q = false.
+Proof. intros H. unfold is_neg. apply negb_false_iff. apply Qle_bool_iff. exact H. Qed.
+Lemma is_neg_true q : (q < 0)%Q -> is_neg q = true.
+Proof.
+  intros H. unfold is_neg. apply negb_true_iff. destruct (Qle_bool 0 q) eqn:E; [|reflexivity].
+  apply Qle_bool_iff in E. exfalso. apply (Qlt_not_le _ _ H). exact E.
+Qed.
+Lemma interp_marked_nonneg t tl tr lv rv : (0 <= lv)%Q -> (0 <= rv)%Q -> interp_marked t tl tr lv rv = interp t tl tr lv rv.
+Proof. intros A B. unfold interp_marked. rewrite (is_neg_false _ A), (is_neg_false _ B). reflexivity. Qed.
+Lemma interp_marked_neg t tl tr lv rv : (lv < 0)%Q \/ (rv < 0)%Q -> interp_marked t tl tr lv rv = lv.
+Proof.
+  intros [A|B]; unfold interp_marked.
+  - rewrite (is_neg_true _ A). reflexivity.
+  - rewrite (is_neg_true _ B), orb_true_r. reflexivity.
+Qed.
+
+Theorem aware_between_marked M prov fb l r scale from to t lv rv lw :
   build M = Ok prov -> In l M -> In r M -> has_ts l = true -> m_index r = m_index l ->
   NoDup (map ts_key (group_raw M (m_index l))) ->
   ts_key l < ztrunc t -> ztrunc t < ts_key r ->
@@ -436,7 +453,7 @@ Theorem aware_between M prov fb l r scale from to t lv rv lw :
   nth_error (m_dur l) (from * psize prov + to) = Some lv ->
   nth_error (m_dur r) (from * psize prov + to) = Some rv ->
   nth_error (m_dist l) (from * psize prov + to) = Some lw ->
-  duration prov fb (m_index l) scale from to t = Val (interp t (ts_of l) (ts_of r) lv rv * scale)%Q /\
+  duration prov fb (m_index l) scale from to t = Val (interp_marked t (ts_of l) (ts_of r) lv rv * scale)%Q /\
   distance prov fb (m_index l) from to t = Val lw.
 Proof.
   intros H Hl Hr Hts Hidx Hnd Hlt Htr Hadj Hlv Hrv Hlw. destruct (build_timed _ _ _ H Hl Hts) as [Hp _].
@@ -450,6 +467,41 @@ Proof.
   unfold aware_dur_raw, aware_dist_raw. rewrite Hb, Hkl, Hkr.
   replace (S k =? length ms)%nat with false by (symmetry; apply Nat.eqb_neq; lia).
   cbn [cell]. rewrite Hlv, Hrv, Hlw. cbn. split; reflexivity.
+Qed.
+
+Theorem aware_between M prov fb l r scale from to t lv rv lw :
+  build M = Ok prov -> In l M -> In r M -> has_ts l = true -> m_index r = m_index l ->
+  NoDup (map ts_key (group_raw M (m_index l))) ->
+  ts_key l < ztrunc t -> ztrunc t < ts_key r ->
+  (forall x, In x M -> m_index x = m_index l -> ~ (ts_key l < ts_key x /\ ts_key x < ts_key r)) ->
+  nth_error (m_dur l) (from * psize prov + to) = Some lv ->
+  nth_error (m_dur r) (from * psize prov + to) = Some rv ->
+  nth_error (m_dist l) (from * psize prov + to) = Some lw ->
+  (0 <= lv)%Q -> (0 <= rv)%Q ->
+  duration prov fb (m_index l) scale from to t = Val (interp t (ts_of l) (ts_of r) lv rv * scale)%Q /\
+  distance prov fb (m_index l) from to t = Val lw.
+Proof.
+  intros H Hl Hr Hts Hidx Hnd Hlt Htr Hadj Hlv Hrv Hlw A B.
+  rewrite <- (interp_marked_nonneg t (ts_of l) (ts_of r) lv rv A B).
+  eapply aware_between_marked; eassumption.
+Qed.
+
+(* one of the two bracketing values is the unreachable marker: the left value, as for the distance *)
+Theorem aware_between_unreachable M prov fb l r scale from to t lv rv lw :
+  build M = Ok prov -> In l M -> In r M -> has_ts l = true -> m_index r = m_index l ->
+  NoDup (map ts_key (group_raw M (m_index l))) ->
+  ts_key l < ztrunc t -> ztrunc t < ts_key r ->
+  (forall x, In x M -> m_index x = m_index l -> ~ (ts_key l < ts_key x /\ ts_key x < ts_key r)) ->
+  nth_error (m_dur l) (from * psize prov + to) = Some lv ->
+  nth_error (m_dur r) (from * psize prov + to) = Some rv ->
+  nth_error (m_dist l) (from * psize prov + to) = Some lw ->
+  (lv < 0)%Q \/ (rv < 0)%Q ->
+  duration prov fb (m_index l) scale from to t = Val (lv * scale)%Q /\
+  distance prov fb (m_index l) from to t = Val lw.
+Proof.
+  intros H Hl Hr Hts Hidx Hnd Hlt Htr Hadj Hlv Hrv Hlw A.
+  rewrite <- (interp_marked_neg t (ts_of l) (ts_of r) lv rv A).
+  eapply aware_between_marked; eassumption.
 Qed.
 
 (* `as u64` is monotone, so a truncated time strictly after/before a truncated stamp is so in real time *)
@@ -492,12 +544,13 @@ Theorem aware_between_bounds M prov fb l r scale from to t lv rv lw :
   nth_error (m_dur l) (from * psize prov + to) = Some lv ->
   nth_error (m_dur r) (from * psize prov + to) = Some rv ->
   nth_error (m_dist l) (from * psize prov + to) = Some lw ->
+  (0 <= lv)%Q -> (0 <= rv)%Q ->
   exists d, duration prov fb (m_index l) scale from to t = Val (d * scale)%Q /\
             (ts_of l < t)%Q /\ (t < ts_of r)%Q /\
             ((lv <= rv)%Q -> (lv <= d)%Q /\ (d <= rv)%Q) /\ ((rv <= lv)%Q -> (rv <= d)%Q /\ (d <= lv)%Q).
 Proof.
-  intros H Hl Hr Hts Hidx Hnd Hlt Htr Hadj Hlv Hrv Hlw.
-  destruct (aware_between M prov fb l r scale from to t lv rv lw H Hl Hr Hts Hidx Hnd Hlt Htr Hadj Hlv Hrv Hlw) as [Hd _].
+  intros H Hl Hr Hts Hidx Hnd Hlt Htr Hadj Hlv Hrv Hlw Hn1 Hn2.
+  destruct (aware_between M prov fb l r scale from to t lv rv lw H Hl Hr Hts Hidx Hnd Hlt Htr Hadj Hlv Hrv Hlw Hn1 Hn2) as [Hd _].
   exists (interp t (ts_of l) (ts_of r) lv rv). split; [exact Hd|].
   assert (ts_of l < t)%Q as A by (apply ztrunc_lt_real; exact Hlt).
   assert (t < ts_of r)%Q as B by (apply ztrunc_lt_real; exact Htr).
@@ -589,6 +642,7 @@ Theorem unreachable_negative pm codes du di k e scale :
   ((0 < scale)%Q -> ((-1 # 1) * scale < 0)%Q) /\ ((-1 # 1) < 0)%Q.
 Proof.
   intros He Hd Hk Hpos. unfold pm_data in Hd. rewrite He in Hd.
+  destruct (length codes <? length (pm_dists pm))%nat; [discriminate|]. destruct (negb _); [discriminate|].
   destruct (with_codes_spec _ _ _ _ _ _ Hd k e Hk) as [A _]. destruct (A Hpos) as [A1 A2].
   split; [exact A1|]. split; [exact A2|]. split; [intros; nra|reflexivity].
 Qed.
@@ -599,6 +653,7 @@ Theorem reachable_exact pm codes du di k e :
                 nth_error du k = Some (inject_Z tv) /\ nth_error di k = Some (inject_Z dv).
 Proof.
   intros He Hd Hk Hle. unfold pm_data in Hd. rewrite He in Hd.
+  destruct (length codes <? length (pm_dists pm))%nat; [discriminate|]. destruct (negb _); [discriminate|].
   destruct (with_codes_spec _ _ _ _ _ _ Hd k e Hk) as [_ B]. exact (B Hle).
 Qed.
 
